@@ -64,6 +64,21 @@ claim('C15',
       'neither registration is complete). Not decided: other-thread delivery, nested signals, Windows repeater.',
       'DESIGN.md 4 C15')
 
+claim('C14',
+      'Function and loop contracts on the real decstring, Lget, Read(double), Read(pair<int,El>), VecReader::ReadNext, '
+      'sufheadcheck, CheckReader, Report*, gsufread, bsufread and the WHOLE 330-line ReadSOLFile (11 loop contracts), with '
+      'stdio/string functions as stubs that return any result the C standard allows: for every file content and every '
+      'declared problem size all buffer accesses are in bounds, no signed overflow or out-of-range float->int conversion '
+      'occurs, dual/primal readers are offered at most NumAlgCons/NumVars values (precondition checks at the real call '
+      'sites), suffix buffers are sized from the validated header and their zero sentinel is never overwritten, a reader '
+      'with an error or unread values always yields a non-OK result, and only documented result codes are returned.',
+      'Trusted: CBMC, extractor (members as globals, std::string/vector as pointer+length, block stubs for File::Open and the '
+      'solve_msg_ string handling), the libc stubs in shims/stdio_stubs.h, allocation succeeds. Termination of the file-driven '
+      'loops is not claimed (files are finite). Library writes into the file-sized suffix buffer havoc the whole buffer. '
+      'Native replay is by recorded defect inputs under ASan/UBSan, not generated from verifier traces (VIOLATION lines end '
+      'in no-failing-input-found).',
+      'DESIGN.md 4 C14')
+
 for pid, reason in [
     ('C01', 'relational whole-pipeline equivalence across ~12k lines of CRTP templates; no function boundary carries it and the code is outside the mechanically extractable C subset (DESIGN.md 5)'),
     ('C09', 'whole-process behaviour (exit status, files, exception propagation through try/catch) - not expressible as function contracts here (DESIGN.md 5)'),
